@@ -34,6 +34,7 @@
 #include <typeinfo>
 #include <exception>
 #include <sys/time.h>
+#include <sys/resource.h>
 #include <unistd.h>
 #include <cxxabi.h>
 #include <xercesc/parsers/SAXParser.hpp>
@@ -86,6 +87,10 @@ static void arm(double seconds) {
 static void disarm() { struct itimerval it; memset(&it, 0, sizeof it); setitimer(ITIMER_VIRTUAL, &it, 0); }
 
 // ---------------------------------------------------------------- case
+static double userSeconds() {
+    struct rusage ru; getrusage(RUSAGE_SELF, &ru);
+    return (double)ru.ru_utime.tv_sec + (double)ru.ru_utime.tv_usec / 1e6;
+}
 struct Case {
     std::string api, scanner, val; unsigned long flags = 0; unsigned long limit = 0;
     std::vector<XMLByte> doc; std::map<std::string, std::vector<XMLByte> > res; bool bad = false;
@@ -550,13 +555,22 @@ int main() {
         Case w = parseCase("dom:ig:auto:3:0 3c3f786d6c2076657273696f6e3d22312e30223f3e3c613e783c2f613e");
         for (int i = 0; i < 2; i++) { runOnce(w); w.api = i ? "sax2" : "ls"; runOnce(w); w.api = "sax"; runOnce(w); }
     }
+    // Load calibration: user CPU time itself inflates when the machine is oversubscribed (the ASan allocator maps and
+    // unmaps the ~160 KB XMLReader of every entity reference). A fixed reference parse (150 entity references) is timed
+    // at start and every 100 cases; budgets are multiplied by measured / nominal (never below 1, at most 4), so the
+    // watchdog measures the work of the case, not the load of the machine.
+    Case ref = parseCase("sax:ig:never:1:0 " + std::string("3c21444f43545950452061205b3c21454e54495459206520227622203e5d3e3c613e") + [] { std::string r; for (int i = 0; i < 150; i++) r += "26653b"; return r; }() + "3c2f613e");
+    const double kRefNominal = 0.10;          // user seconds of the reference on this build with the machine otherwise idle
+    double loadFactor = 1.0;
+    auto calibrate = [&]() { double best = 1e9; for (int i = 0; i < 3; i++) { double t0 = userSeconds(); runOnce(ref); double d = userSeconds() - t0; if (d < best) best = d; } double f = best / kRefNominal; /* minimum of three: spikes are not load */ loadFactor = f < 1.0 ? 1.0 : (f > 4.0 ? 4.0 : f); };
     std::string line; size_t caseNo = 0;
     while (std::getline(std::cin, line)) {
+        if (caseNo % 100 == 0) { calibrate(); scale = (sc ? atof(sc) : 1.0) * loadFactor; fprintf(stderr, "#L %.2f\n", loadFactor); }
         fprintf(stderr, "#C %zu\n", caseNo++); fflush(stderr);     // lets the checker attribute sanitizer text to a case
         if (line.compare(0, 4, "SEQ ") == 0) {
             Seq q = parseSeq(line);
             if (q.bad) { std::cout << "bad-op" << std::endl; continue; }
-            arm(scale * (8.0 * q.steps.size() + (double)q.total / 3000.0 + 0.004 * (double)q.refs));
+            arm(scale * (8.0 * q.steps.size() + (double)q.total / 3000.0 + 0.010 * (double)q.refs));
             long before = gLive.load();
             std::string out = runSeq(q);
             if (gLive.load() != before) {
@@ -574,9 +588,9 @@ int main() {
         size_t total = c.doc.size(), refs = 0;
         for (XMLByte b : c.doc) if (b == '&' || b == '%') ++refs;
         for (auto& kv : c.res) { total += kv.second.size(); for (XMLByte b : kv.second) if (b == '&' || b == '%') ++refs; }
-        // budget in user-CPU seconds, linear in the input: 8 s + 1 s per 3 KB + 4 ms per reference character
+        // budget in user-CPU seconds, linear in the input: 8 s + 1 s per 3 KB + 10 ms per reference character
         // (every entity reference builds an XMLReader of ~160 KB, which the ASan allocator makes expensive)
-        arm(scale * (8.0 + (double)total / 3000.0 + 0.004 * (double)refs));
+        arm(scale * (8.0 + (double)total / 3000.0 + 0.010 * (double)refs));
         long before = gLive.load();
         std::string out = runOnce(c);
         long delta = gLive.load() - before;
